@@ -112,9 +112,10 @@ theorem C18_shape (f : Facts) :
                         (firstFailed f.deps = none ∧ f.upToDateErr = true)) ∧
     (evs = [.upToDate] ↔ firstFailed f.deps = none ∧ f.upToDateErr = false ∧ f.skip = true) ∧
     (evs = [.evaluating, .succeeded] ↔ firstFailed f.deps = none ∧ f.upToDateErr = false ∧ f.skip = false ∧
-                        (f.dryRun = true ∨ (f.bodyOk = true ∧ f.saveOk = true))) ∧
+                        (f.dryRun = true ∨ ((f.isTarget = false ∨ f.preSaveOk = true) ∧ f.bodyOk = true ∧ f.saveOk = true))) ∧
     (evs = [.evaluating, .failed] ↔ firstFailed f.deps = none ∧ f.upToDateErr = false ∧ f.skip = false ∧
-                        f.dryRun = false ∧ (f.bodyOk = false ∨ f.saveOk = false)) ∧
+                        f.dryRun = false ∧
+                        ((f.isTarget = true ∧ f.preSaveOk = false) ∨ f.bodyOk = false ∨ f.saveOk = false)) ∧
     ((evaluate f).2 = true ↔ evs = [] ∨ evs = [.failed] ∨ evs = [.evaluating, .failed]) := by
   intro evs
   simp only [evs, evaluate, depLoop_eq]
@@ -123,23 +124,26 @@ theorem C18_shape (f : Facts) :
     have := firstFailed_ne_ok f.deps
     cases d <;> simp_all
   | none =>
-    cases f.upToDateErr <;> cases f.skip <;> cases f.dryRun <;> cases f.bodyOk <;> cases f.saveOk <;> simp
+    cases f.upToDateErr <;> cases f.skip <;> cases f.dryRun <;> cases f.isTarget <;> cases f.preSaveOk <;>
+      cases f.bodyOk <;> cases f.saveOk <;> simp
 
 /-- C18: `evaluating` is reported exactly when the body runs, or would run were this not a dry run; it is
 reported at most once and before any other event of the target; and in a real build it is reported iff the
-body is called. -/
+body is called — unless the in-progress record a function target writes first cannot be written (an I/O fault:
+the target then fails before its body). -/
 theorem C18_eval_iff (f : Facts) :
     (.evaluating ∈ (evaluate f).1 ↔ bodyWouldRun f = true) ∧
     ((evaluate f).1.count .evaluating ≤ 1) ∧
     (.evaluating ∈ (evaluate f).1 → (evaluate f).1.head? = some .evaluating) ∧
-    (bodyRuns f = true ↔ .evaluating ∈ (evaluate f).1 ∧ f.dryRun = false) := by
+    (bodyRuns f = true ↔ .evaluating ∈ (evaluate f).1 ∧ f.dryRun = false ∧ (f.isTarget = true → f.preSaveOk = true)) := by
   simp only [evaluate, bodyWouldRun, bodyRuns, depLoop_eq]
   cases hff : firstFailed f.deps with
   | some d =>
     have := firstFailed_ne_ok f.deps
     cases d <;> simp_all
   | none =>
-    cases f.upToDateErr <;> cases f.skip <;> cases f.dryRun <;> cases f.bodyOk <;> cases f.saveOk <;> simp
+    cases f.upToDateErr <;> cases f.skip <;> cases f.dryRun <;> cases f.isTarget <;> cases f.preSaveOk <;>
+      cases f.bodyOk <;> cases f.saveOk <;> simp
 
 /-- C18: a target that fails — for whatever reason, reported or not — is an `other` failure to its dependents,
 so (being their first failed dependency) it makes them report nothing; a target that did not fail is `ok`. -/
@@ -180,8 +184,9 @@ theorem C18_output (f : Facts) (chunks : List (List UInt8)) :
     | some d => cases d <;> simp [hff] at hb
     | none =>
       simp only [hff] at hb ⊢
-      cases h1 : f.upToDateErr <;> cases h2 : f.skip <;> cases h3 : f.dryRun <;> simp [h1, h2, h3] at hb ⊢
-      cases f.bodyOk <;> cases f.saveOk <;> simp
+      cases h1 : f.upToDateErr <;> cases h2 : f.skip <;> cases h3 : f.dryRun <;> cases h4 : f.isTarget <;>
+        cases h5 : f.preSaveOk <;> simp [h1, h2, h3, h4, h5] at hb ⊢ <;>
+        cases f.bodyOk <;> cases f.saveOk <;> simp
   · intro hb
     simp only [evaluateOut, hb, Bool.false_eq_true, ↓reduceIte, true_and]
     intro o ho l
@@ -213,10 +218,14 @@ theorem C18_rundone {L : Type} [DecidableEq L] (body : List (RunEv L) × Bool)
 
 /-! non-vacuity: each allowed shape is produced by concrete facts -/
 def sample : Facts := { deps := [.ok, .ok], upToDateErr := false, always := false, depsUpToDate := true,
-                        upToDate := true, rerun := false, dryRun := false, bodyOk := true, saveOk := true }
+                        upToDate := true, rerun := false, dryRun := false, isTarget := true, preSaveOk := true,
+                        bodyOk := true, saveOk := true }
 example : evaluate sample = ([.upToDate], false) := by decide
 example : evaluate { sample with upToDate := false } = ([.evaluating, .succeeded], false) := by decide
 example : evaluate { sample with rerun := true, bodyOk := false } = ([.evaluating, .failed], true) := by decide
+example : evaluate { sample with upToDate := false, saveOk := false } = ([.evaluating, .failed], true) := by decide
+example : evaluate { sample with upToDate := false, preSaveOk := false } = ([.evaluating, .failed], true) := by decide
+example : bodyRuns { sample with upToDate := false, preSaveOk := false } = false := by decide
 example : evaluate { sample with deps := [.ok, .missing, .other] } = ([.failed], true) := by decide
 example : evaluate { sample with deps := [.ok, .cyclic] } = ([.failed], true) := by decide
 example : evaluate { sample with deps := [.other, .missing] } = ([], true) := by decide
